@@ -252,8 +252,112 @@ def check(run):
     search(run, src)
 
 
+def generate(src):
+    from vt.gen import c01_resolve
+    return c01_resolve.generate(src)
+
+
+def build():
+    return core.ocaml_build("c01", "C01/Extract.v", "driver.ml")
+
+
+def _units(src, cases):
+    rc, out = core.run_impl("vt.harness.c01_units", [], src=src, input="".join(json.dumps(c) + "\n" for c in cases), timeout=1800)
+    res = {}
+    for ln in out.splitlines():
+        if ln.startswith('{"id"'):
+            r = json.loads(ln)
+            res[r["id"]] = r
+    if len(res) != len(cases):
+        raise RuntimeError("c01_units: %d/%d results: %s" % (len(res), len(cases), out[-600:]))
+    return res
+
+
+def entity_cases(rng, tier):
+    ents = list(G.ENTITIES) + ["&amp;", "&lt;", "&gt;", "&quot;", "&nbsp;", "&euro;", "&AMP;", "&Auml;", "&;", "&#;", "&#x;", "&#X;", "&x;", "&#xx;"]
+    bounds = [0, 1, 9, 10, 127, 128, 255, 0xD7FF, 0xD800, 0xDFFF, 0xE000, 0xFFFF, 0x10000, 0x10FFFF, 0x110000, 2**31 - 1, 2**31, 2**31 + 1,
+              2**32, 2**63, 2**64, 10**18, 10**19, 10**30, 10**100]
+    for b in bounds:
+        ents += ["&#%d;" % b, "&#x%x;" % b, "&#X%X;" % b, "&#-%d;" % b, "&#0%d;" % b, "&#x-%x;" % b]
+    n = 1500 if tier == "quick" else 20000
+    for _ in range(n):
+        k = rng.choice([1, 2, 3, 5, 8, 12, 20, 40])
+        body = "".join(rng.choice("##xX0123456789abcdefABCDEF0123456789_ +-.g\u0663\uff11") for _ in range(k))
+        ents.append("&" + body.replace(";", "") + ";")
+    for _ in range(n // 3):
+        ents.append("&#" + rng.choice(["", "x", "X"]) + "".join(rng.choice("0123456789abcdef") for _ in range(rng.randint(1, 30))) + ";")
+    return ents
+
+
+def count_cases(rng, tier):
+    import itertools
+    cs = []
+    for ln in range(0, 5 if tier == "quick" else 6):
+        cs += [list(t) for t in itertools.product([2, 3, 4, 5, 6, 7], repeat=ln)]
+    for _ in range(1500 if tier == "quick" else 20000):
+        ln = rng.choice([5, 6, 8, 12, 20, 40])
+        cs.append([rng.choice([2, 2, 3, 3, 4, 5, 6, 9]) for _ in range(ln)])
+    # balanced italic(bold*k) / bold(italic*k) families (see C02_quotes_balanced)
+    for k in range(1, 30):
+        cs.append([2] + [3, 3] * k + [2])
+        cs.append([3] + [2, 2] * k + [3])
+    return cs
+
+
 def proofs(run, src):
-    pass
+    run.check_proofs("C01", gen=lambda: generate(src))
+    exe = build()
+    # ---- tie 1: resolve_entity, real vs extracted model; Python's own int()/name-table outcome is fed to the model
+    ents = entity_cases(run.rng, run.tier)
+    cases = [{"id": i, "k": "R", "e": e} for i, e in enumerate(ents)]
+    res = _units(src, cases)
+    lines = "".join("R %s|%s|%s\n" % (core.cps(c["e"]), res[c["id"]].get("int", "N"), res[c["id"]].get("name", "N")) for c in cases)
+    out = subprocess.run([exe], input=lines, capture_output=True, text=True, timeout=600).stdout.splitlines()
+    dis = []
+    outcomes = collections.Counter()
+    for c, m in zip(cases, out):
+        r = res[c["id"]]
+        real = ("RAISE " + r["exc"]) if "exc" in r else ("OK " + core.cps(r["out"])).rstrip()
+        outcomes["raise" if "exc" in r else "literal" if r["out"] == c["e"] else "char"] += 1
+        if real != m.rstrip():
+            dis.append("resolve_entity(%r): real %s, model %s" % (c["e"], real, m))
+        if "exc" in r:
+            # monitor at unit level: an exception escaping resolve_entity aborts the whole parse
+            run.hit("exc:%s@parser/refine/util.py:resolve_entity" % r["exc"], "resolve_entity(%r) raised %s" % (c["e"], r["exc"]),
+                    {"raw": c["e"], "lang": "de", "db": None, "fp": "exc:%s@parser/refine/util.py:resolve_entity" % r["exc"]})
+    run.tie("resolve_entity: extracted model vs util.resolve_entity (result string / exception)", len(cases), dis)
+    run.coverage["resolve_entity_outcomes"] = dict(outcomes)
+    # ---- tie 2: compute_path
+    counts = count_cases(run.rng, run.tier)
+    cases = [{"id": i, "k": "P", "counts": c} for i, c in enumerate(counts)]
+    res = _units(src, cases)
+    lines = "".join("P %s|%s\n" % (" ".join(map(str, c["counts"])), ";".join("%d,%d,%d" % tuple(t) for t in res[c["id"]].get("path", []))) for c in cases)
+    out = subprocess.run([exe], input=lines, capture_output=True, text=True, timeout=1800).stdout.splitlines()
+    dis = []
+    pruned = 0
+    for c, m in zip(cases, out):
+        r = res[c["id"]]
+        if "exc" in r:
+            dis.append("compute_path(%r): real raised %s, model %s" % (c["counts"], r["exc"], m))
+            continue
+        f = m.split()
+        if f[0] != "LEN":
+            dis.append("compute_path(%r): model %s, real returned %d states" % (c["counts"], m, len(r["path"])))
+            continue
+        mlen, valid, sa, sb, maxnew = int(f[1]), f[3] == "1", int(f[5]), int(f[7]), int(f[9])
+        path = r["path"]
+        score = (path[-1][0] + path[-1][1] + path[-1][2]) if path else 0
+        if len(path) != mlen or len(path) != len(c["counts"]):
+            dis.append("compute_path(%r): length real %d model %d" % (c["counts"], len(path), mlen))
+        elif not valid:
+            dis.append("compute_path(%r): real path %r is not a chain of get_next successors of the model" % (c["counts"], path))
+        elif maxnew <= 32 and not (score == sa == sb):
+            dis.append("compute_path(%r): no pruning possible, final scores real %d model %d/%d" % (c["counts"], score, sa, sb))
+        if maxnew > 32:
+            pruned += 1
+    run.tie("compute_path: real path is a get_next chain of the model, same length; same final score when no pruning can occur",
+            len(cases), dis)
+    run.coverage["compute_path_cases_with_pruning"] = pruned
 
 
 def replay(obj):
